@@ -25,19 +25,51 @@ def sentinel():
 SENT = sentinel()
 
 
+def exercise(ss):
+    """use a loaded signature the way later commands would: a damaged file that loads must not
+    leave a time bomb behind (abundance-aware comparison, mutation of a copy, re-save)"""
+    mh = ss.minhash
+    try:
+        dict(mh.hashes)
+    except AssertionError:
+        pass
+    len(mh)
+    ss.md5sum()
+    try:
+        mh.similarity(mh)
+        mh.similarity(mh, ignore_abundance=True)
+        if mh.scaled:
+            mh.contained_by(mh)
+            mh.downsample(scaled=mh.scaled * 2)
+    except (ValueError, TypeError, ZeroDivisionError):
+        pass
+    m = mh.to_mutable()
+    m.add_hash(7)
+    if m.track_abundance:
+        m.add_hash_with_abundance(9, 2)
+        m.set_abundances({11: 3}, clear=False)
+    m.remove_many([7, 9])
+    try:
+        m.merge(mh)
+    except (ValueError, TypeError):
+        pass
+    sigmod.save_signatures_to_json([ss])
+
+
 def load(kind, path):
     if kind in ("sig", "siggz"):
         n = 0
         for ss in sourmash.load_file_as_signatures(path):
             n += len(ss.minhash)
-            ss.md5sum()
+            exercise(ss)
         data = open(path, "rb").read()
-        list(sigmod.load_signatures_from_json(data))
+        for ss in sigmod.load_signatures_from_json(data):
+            exercise(ss)
     elif kind in ("zip", "sqldb", "sbtzip", "sbtjson", "lca"):
         idx = sourmash.load_file_as_index(path)
         sigs = list(idx.signatures())
         for ss in sigs[:3]:
-            ss.md5sum()
+            exercise(ss)
             if ss.minhash.scaled:
                 q = ss
                 if q.minhash.track_abundance:
